@@ -365,6 +365,7 @@ def _not(p: Any) -> Any:
 
 
 def contains(I, container: Any, x: Any, st: State) -> Any:
+    container = st.resolve(container)
     if isinstance(container, (SList, STuple)):
         return _or([eq(I, x, y) for y in container.items])
     if isinstance(container, (frozenset, tuple, list)):
@@ -546,6 +547,7 @@ def read_symobj_field(I, o: SymObj, attr: str, st: State) -> Any:
 
 
 def get_attr(I, o: Any, attr: str, st: State) -> Iterator[tuple[State, Any]]:
+    o = st.resolve(o)
     if isinstance(o, SObj):
         if attr in o.fields:
             yield st, o.fields[attr]
@@ -665,6 +667,7 @@ def _norm_index(i: Any, length: Any) -> Any:
 
 
 def subscript(I, o: Any, k: Any, st: State):
+    o = st.resolve(o)
     # slices on strings
     is_str = isinstance(o, str) or (V.is_z3(o) and o.sort() == z3.StringSort())
     if isinstance(k, tuple) and k and k[0] == "slice":
